@@ -110,6 +110,17 @@ def cases(tier, rng):
                 ops += ["feed %s %s" % (c, W.tok(W.msg([b"", b"ok"]))) for c in names] + ["recv"]
             out.append("d%d sock REQ / %s" % (k, " / ".join(ops)))
             k += 1
+    # peers whose READY carries an Identity property that is present but empty: each is a peer of its own in the rotation
+    for t in ("PUSH", "DEALER", "REQ"):
+        for n in (2, 3):
+            names = "abc"[:n]
+            ops = ["attach %s %s id=-" % (c, peer(t)) for c in names]
+            for i in range(2 * n + 1):
+                ops += ["send %s" % W.tok(b"e%d" % i)] + ["wire " + c for c in names]
+                if t == "REQ":
+                    ops += ["feed %s %s" % (c, W.tok(W.msg([b"", b"ok"]))) for c in names] + ["recv"]
+            out.append("d%d sock %s / %s" % (k, t, " / ".join(ops)))
+            k += 1
     # known class: a peer re-joins under its old identity while its stale id is still queued
     out.append("z%d sock DEALER / attach a ROUTER id=41 / attach b ROUTER id=42 / feed a 0009aabb / eof a / recv / attach c ROUTER id=41 / "
                "send 31 / wire b / wire c / send 32 / wire b / wire c / send 33 / wire b / wire c / send 34 / wire b / wire c / send 35 / wire b / wire c / send 36 / wire b / wire c" % k)
